@@ -98,7 +98,7 @@ def run_C13(tier, seed, replay=None, procs=16):
     if replay:
         ps = number([replay["problem"]])
         cfgs = [replay["detail"]["config"]]
-    objs = FS.OBJECTIVES if full else ["none", "makespan", "flowtime", "max_expr", "cost", "two_min"]
+    objs = FS.OBJECTIVES if full else ["none", "makespan", "flowtime", "max_expr", "min_bounded", "cost", "two_min"]
     if not replay:
         ps = number(FS.pool(objs))
     V, st_enum = SE.prepare(ps)
@@ -116,6 +116,21 @@ def run_C13(tier, seed, replay=None, procs=16):
             if replay:
                 my = [[tuple(c) for c in replay["detail"]["calls"]]]
             cases.append(dict(problem=p, solver_kw=kw, mode=mode, priority=prio, tracked=[("start", 1)], sequences=my))
+            if mode == "incremental" and p["objs"] and not replay:
+                # early stops of the incremental loop (iteration limit, time limit) followed by further calls
+                short = [s for s in my if len(s) >= 2][:4] + [[("solve",), ("solve",), ("another",), ("solve",)]]
+                for k in (1, 2):
+                    cases.append(dict(problem=p, solver_kw=dict(kw, max_iter=k), mode=mode, priority=prio, max_iter=k,
+                                      tracked=[("start", 1)], sequences=short))
+                cases.append(dict(problem=p, solver_kw=kw, mode=mode, priority=prio, clock_step=11.0,
+                                  tracked=[("start", 1)], sequences=short))
+    if replay:
+        cfgr = replay["detail"]["config"]
+        for c in cases:
+            c["max_iter"] = cfgr.get("max_iter")
+            c["clock_step"] = cfgr.get("clock_step")
+            if cfgr.get("max_iter"):
+                c["solver_kw"] = dict(c["solver_kw"], max_iter=cfgr["max_iter"])
     res = SE.run_cases(cases, V, procs=procs)
     viol = SE.violations(res, "C13")
     cov = _cov(res, st_enum, ps, V, extra_states=st_spec["distinct"])
@@ -171,7 +186,7 @@ def run_C07(tier, seed, replay=None, procs=16):
     st_spec, nsc = _spec_check(max_pts=3 if full else 2)
     objs = [o for o in FS.OBJECTIVES if o != "none"]
     if not full:
-        objs = ["makespan", "flowtime", "start_latest", "max_expr", "cost", "two_min", "two_max"]
+        objs = ["makespan", "flowtime", "start_latest", "max_expr", "min_bounded", "max_bounded", "cost", "two_min", "two_max"]
     ps = number([replay["problem"]]) if replay else number(FS.pool(objs, shapes=("plain", "optional", "select", "variable", "buffer", "single")))
     V, st_enum = SE.prepare(ps)
     cases = []
@@ -205,7 +220,8 @@ def run_C15(tier, seed, replay=None, procs=16):
     rng = random.Random(seed + 15)
     full = tier == "thorough"
     ps = number([replay["problem"]]) if replay else number(
-        FS.pool(["none", "makespan", "flowtime", "two_min"], shapes=("plain", "optional", "variable", "infeasible")))
+        FS.pool(["none", "makespan", "flowtime", "min_bounded", "max_bounded", "two_min", "two_max"],
+                shapes=("plain", "optional", "variable", "infeasible")))
     V, st_enum = SE.prepare(ps)
     grid = []
     for opt, prio, par, rv, dbg, lg in itertools.product(("incremental", "optimize"), ("pareto", "lex", "box", "weight"),
@@ -252,7 +268,8 @@ def _infeasible_problems(full):
     from problems import PB
     ps = []
     pads = (0, 1, 3) if full else (0, 2)
-    for kind, pad in itertools.product(("startat-endat", "precedence-cycle", "deadline-worker", "unavailable", "force-n", "buffer"), pads):
+    for kind, pad in itertools.product(("startat-endat", "precedence-cycle", "deadline-worker", "unavailable", "unavailable-2",
+                                        "force-n", "buffer", "force-apply", "workload"), pads):
         b = PB(4, tag=f"infeasible-{kind}/pad{pad}")
         a = b.task("A", "F", dur=2)
         c = b.task("B", "F", dur=1)
@@ -273,6 +290,19 @@ def _infeasible_problems(full):
             from problems import res_worker
             b.con("ResourceUnavailable", name="k1", res=res_worker(w), intervals=[[0, 2]])
             b.con("TaskEndBefore", name="k2", task=a, value=3, kind="lax")
+        elif kind == "unavailable-2":
+            # the conflict goes through the FIRST interval of a multi-interval constraint
+            from problems import res_worker
+            b.con("ResourceUnavailable", name="k1", res=res_worker(w), intervals=[[0, 2], [3, 4]])
+            b.con("TaskEndBefore", name="k2", task=a, value=2, kind="lax")
+        elif kind == "workload":
+            from problems import res_worker
+            b.con("WorkLoad", name="k1", res=res_worker(w), intervals=[[0, 4, 2]], kind="max")
+        elif kind == "force-apply":
+            # two optional constraints that cannot both hold, forced by a ForceApplyN rule
+            k1 = b.con("TaskStartAt", name="k1", task=a, value=0, optional=True)
+            k2 = b.con("TaskStartAt", name="k2", task=c, value=0, optional=True)
+            b.con("ForceApplyNOptionalConstraints", name="k3", cons=[k1, k2], n=2, kind="min")
         elif kind == "force-n":
             b.con("OptionalTaskForceSchedule", name="k1", task=d, flag=True)
             b.con("TaskStartAt", name="k2", task=d, value=4)
@@ -329,13 +359,30 @@ def run_C19(tier, seed, replay=None, procs=16):
             continue
         # the sub-problem made of the named constraints and the basic rules must admit no schedule
         q = copy.deepcopy(p)
-        keep = [k for k in q["cons"] if k["name"] in names]
-        # operands of kept connectives are kept too (by index remapping)
-        if any(k["cls"] in ("Not", "And", "Or", "Xor", "Implies", "IfThenElse", "ForceApplyNOptionalConstraints") for k in q["cons"]):
-            keep = q["cons"]
-        q["cons"] = keep
-        for bf in q["buffers"]:
-            pass  # buffer rules are basic rules: kept
+        # the listed constraints stay; operands of a listed connective are part of its meaning and stay too;
+        # every other constraint is replaced by a vacuous stand-in with the same optional flag (so that
+        # indices and ForceApplyN references remain meaningful)
+        kept = {i for i, k in enumerate(q["cons"]) if k["name"] in names}
+        changed = True
+        while changed:
+            changed = False
+            for i in list(kept):
+                k = q["cons"][i]
+                for key in ("x", "y"):
+                    if key in k and k[key]["t"] == "con" and k[key]["i"] - 1 not in kept:
+                        kept.add(k[key]["i"] - 1)
+                        changed = True
+                for key in ("xs", "ys"):
+                    for o in k.get(key, []):
+                        if o["t"] == "con" and o["i"] - 1 not in kept:
+                            kept.add(o["i"] - 1)
+                            changed = True
+        for i, k in enumerate(q["cons"]):
+            if i not in kept:
+                q["cons"][i] = {"name": k["name"], "cls": "ConstraintFromExpression", "optional": k["optional"], "top": k["top"],
+                                "expr": {"op": "true"}}
+        # buffers with their bounds and their load / unload registrations are "basic buffer rules"
+        # (the library encodes them in its buffer section, they carry no assertion of their own): they stay
         q["objs"], q["inds"] = [], []
         q["tag"] = p["tag"] + "#core"
         subs.append(q)
